@@ -149,7 +149,11 @@ OpAt(P, x) == P.tasks[x[1]].segs[x[2]].ops[x[3]]
 YieldOnly(P) == \A x \in AllOps(P) : OpAt(P, x).o # "sync"
 HasCtxType(P, ty) == \E c \in 1..Len(P.ctxs) : P.ctxs[c].type = ty
 NoFaultyCtx(P) == \A c \in 1..Len(P.ctxs) : P.ctxs[c].faulty = "-"
-NoSpawnKind(P) == \A k \in 1..Len(P.kinds) : P.kinds[k].flush # "spawn"
+NoSpawnKind(P) == \A k \in 1..Len(P.kinds) : P.kinds[k].flush \notin {"spawn", "throw"}
+NoThrowKind(P) == \A k \in 1..Len(P.kinds) : P.kinds[k].flush # "throw"
+\* exceptions that end a computation from outside the data flow: the runaway-recursion RuntimeError (80000) and
+\* an exception raised by BatchBase.flush() itself (31000 + kind)
+IsEscape(v) == IsX(v) /\ (v.n = 80000 \/ (v.n >= 31000 /\ v.n < 32000))
 NoStackLimit(P) == "maxstack" \notin DOMAIN P
 SeqDomain(P) == NoFaultyCtx(P) /\ ~HasCtxType(P, "nonasync") /\ NoSpawnKind(P) /\ NoStackLimit(P)   \* where sequential evaluation is the oracle
 
